@@ -740,6 +740,13 @@ class FuelHandler:
             )
             return
 
+        for a in (a1, a2):
+            if a.parent is not self.r.core:
+                # refused before the stationary blocks are exchanged
+                raise ValueError(
+                    "Cannot swap {}: it is not in the core (see dischargeSwap).".format(a)
+                )
+
         runLog.extra("Swapping {} with {}.".format(a1, a2))
         # add assemblies into the moved location
         for a in [a1, a2]:
@@ -851,6 +858,12 @@ class FuelHandler:
                 "Cannot discharge swap None assemblies. Check your findAssembly calls. Skipping"
             )
             return
+
+        if outgoing.parent is not self.r.core:
+            # refused before the stationary blocks are exchanged
+            raise ValueError(
+                "Cannot discharge {}: it is not in the core.".format(outgoing)
+            )
 
         # add assemblies into the moved location
         # keep it unique so we don't get artificially inflated numMoves
